@@ -457,6 +457,55 @@ struct ArgLenSpace {
 };
 ArgLenSpace g_arglen;
 
+/// boundary documents: (a) one CR / NUL inserted at every offset of the three example files, (b) the examples padded
+/// to 64 KiB with one special byte written at every offset 2^k-2 .. 2^k+1 (k = 8..16: where block-wise readers end a
+/// buffer), (c) a curated list of edge documents (DOS/Mac line endings, torn between CR and LF, no final newline,
+/// torn inside a block header, exact buffer-size lengths).  Each via stdin and via path.
+struct BoundarySpace {
+   struct Ex { std::string rel, type; size_t len; };
+   std::vector<Ex> ex; std::vector<std::vector<std::string>> edge; size_t n_ins = 0, n_chunk = 0, total = 0;
+   static constexpr size_t NK = 6, NKPOS = 9 * 4;
+   void build()
+   {
+      for (const char* sfx : {"slha", "gm2", "thdm"}) for (auto& f : g_corpus.files) if (f.rel.find(std::string("/input/example.") + sfx) != std::string::npos) ex.push_back({f.rel, f.type, f.bytes.size()});
+      for (auto& e : ex) n_ins += (e.len + 1) * 2 * 2;             // offset x {cr, nul} x {stdin, path}
+      n_chunk = ex.size() * NKPOS * NK * 2;
+      for (auto& e : ex) for (const char* src : {"stdin", "path"}) {
+         const std::vector<std::string> head = {"base corpus " + e.rel, std::string("src ") + src};
+         auto add = [&](std::vector<std::string> ops) { std::vector<std::string> p = head; for (auto& o : ops) p.push_back(o); edge.push_back(p); };
+         add({"crlf"}); add({"crlf mac"}); add({"crlf", "trunc -2"}); add({"crlf", "trunc -3"}); add({"trunc -2"}); // (positions are modulo size+1: -2 drops the last byte)
+         add({"crlf", "trunc " + std::to_string(e.len / 2)}); add({"trunc 5"}); add({"trunc 6"}); add({"trunc 7"});
+         for (long target : {255L, 256L, 257L, 511L, 512L, 513L, 1023L, 1024L, 1025L, 4095L, 4096L, 4097L, 8191L, 8192L, 8193L, 65535L, 65536L})
+            if ((size_t)target > e.len) add({"pad " + std::to_string((size_t)target - e.len)}); else add({"trunc " + std::to_string(target)});
+         for (long target : {4096L, 8192L, 65536L}) if ((size_t)target > 2 * e.len) { add({"crlf", "pad " + std::to_string((size_t)target - e.len - 100), "trunc " + std::to_string(target)}); }
+      }
+      total = n_ins + n_chunk + edge.size();
+   }
+   std::vector<std::string> plan(size_t idx) const
+   {
+      if (idx >= total) return {};
+      if (idx < n_ins) {
+         for (auto& e : ex) {
+            const size_t n = (e.len + 1) * 4;
+            if (idx < n) { const size_t off = idx / 4, k = idx % 4; return {"base corpus " + e.rel, std::string("src ") + ((k & 1) ? "path" : "stdin"), "ins " + std::to_string(off) + ((k & 2) ? " nul 0 0" : " cr 0 0")}; }
+            idx -= n;
+         }
+         return {};
+      }
+      idx -= n_ins;
+      if (idx < n_chunk) {
+         static const char* const kinds[] = {"cr", "nl", "nul", "hash", "space", "B"};
+         const size_t src = idx % 2; idx /= 2; const size_t k = idx % NK; idx /= NK; const size_t pos = idx % NKPOS; idx /= NKPOS; const Ex& e = ex[idx % ex.size()];
+         const long off = (256L << (pos / 4)) - 2 + (long)(pos % 4);
+         return {"base corpus " + e.rel, std::string("src ") + (src ? "path" : "stdin"), "pad " + std::to_string(65536 - e.len), "put " + std::to_string(off) + " " + kinds[k]};
+      }
+      idx -= n_chunk;
+      return edge[idx];
+   }
+   size_t first_edge() const { return n_ins + n_chunk; }
+};
+BoundarySpace g_boundary;
+
 std::vector<std::string> plan_of(const std::string& kind, uint64_t seed, uint64_t idx, std::string* mode)
 {
    if (kind == "RUNS") return gen_plan(g_corpus, sim::run_seed(seed, ENGINE_ID, idx), mode);
@@ -469,6 +518,8 @@ std::vector<std::string> plan_of(const std::string& kind, uint64_t seed, uint64_
    if (kind == "CONFIG") return g_config.plan(idx);
    if (kind == "CONFIGQ") return g_configq.plan(idx);
    if (kind == "ARGLEN") return g_arglen.plan(idx);
+   if (kind == "BOUNDARY") return g_boundary.plan(idx);
+   if (kind == "EDGE") return g_boundary.plan(g_boundary.first_edge() + idx);
    if (kind == "CORPUS") { if (idx < 2 * g_corpus.files.size()) return {"base corpus " + g_corpus.files[idx / 2].rel, std::string("src ") + ((idx & 1) ? "path" : "stdin")}; }
    return {};
 }
@@ -484,7 +535,7 @@ int main(int argc, char** argv)
    g_fsdir = argv[3];
    mkdir(g_fsdir.c_str(), 0755);
    if (g_corpus.files.empty()) { std::printf("NOTE empty corpus\n"); }
-   g_prefix.build(false); g_prefixq.build(true); g_token.build(false); g_tokenq.build(true); g_config.build(false); g_configq.build(true); g_arglen.build();
+   g_prefix.build(false); g_prefixq.build(true); g_token.build(false); g_tokenq.build(true); g_config.build(false); g_configq.build(true); g_arglen.build(); g_boundary.build();
 
    // calibrate the logical step budget on the intact corpus of the current tree
    // (in a forked child: the worker itself must not have executed the program before its first run, so that a plan
@@ -519,7 +570,7 @@ int main(int argc, char** argv)
    while (sim::read_line(line)) {
       const auto t = sim::split(line);
       if (t.empty()) continue;
-      if (t[0] == "RUNS" || t[0] == "LIGHT" || t[0] == "PREFIX" || t[0] == "PREFIXQ" || t[0] == "TOKEN" || t[0] == "TOKENQ" || t[0] == "CONFIG" || t[0] == "CONFIGQ" || t[0] == "ARGLEN" || t[0] == "CORPUS") {
+      if (t[0] == "RUNS" || t[0] == "LIGHT" || t[0] == "PREFIX" || t[0] == "PREFIXQ" || t[0] == "TOKEN" || t[0] == "TOKENQ" || t[0] == "CONFIG" || t[0] == "CONFIGQ" || t[0] == "ARGLEN" || t[0] == "BOUNDARY" || t[0] == "CORPUS") {
          const bool rnd = t[0] == "RUNS" || t[0] == "LIGHT";
          if (t.size() < (rnd ? 4u : 3u)) { std::printf("NOTE malformed command: %s\nDONE\n", line.c_str()); continue; }
          const uint64_t seed = rnd ? std::strtoull(t[1].c_str(), nullptr, 0) : 0;
@@ -543,7 +594,7 @@ int main(int argc, char** argv)
          g_hash_all = t.size() > 1 && t[1] != "0";
          std::printf("DONE\n");
       } else if (t[0] == "COUNT") {
-         std::printf("COUNT CONFIG %zu\nCOUNT CONFIGQ %zu\nCOUNT ARGLEN %zu\n", g_config.total, g_configq.total, g_arglen.total);
+         std::printf("COUNT CONFIG %zu\nCOUNT CONFIGQ %zu\nCOUNT ARGLEN %zu\nCOUNT BOUNDARY %zu\nCOUNT EDGE %zu\n", g_config.total, g_configq.total, g_arglen.total, g_boundary.total, g_boundary.edge.size());
          std::printf("COUNT PREFIX %zu\nCOUNT PREFIXQ %zu\nCOUNT TOKEN %zu\nCOUNT TOKENQ %zu\nCOUNT CORPUS %zu\nBUDGET %" PRIu64 " %" PRIu64 "\nDONE\n",
                      g_prefix.total, g_prefixq.total, g_token.total, g_tokenq.total, 2 * g_corpus.files.size(), g_budget, max_steps);
       } else if (t[0] == "DUMP" && t.size() >= 4) {
